@@ -157,48 +157,36 @@ def run(model, rep):
                   'minify returns something other than the printed module: %r' % (r.outcome[1],), key='C01.PIPE|%s|return' % label)
     rep.floor('C01.PIPE', 40)
 
-    # ---------------- ANNOT typestate: effect summaries per stage (what it reads / populates), order from the evaluated runs
-    cg = CallGraph(model)
-    E = Effects(model, cg)
-    summaries = {}
-    for name, (kind, q) in callables.items():
-        if kind == 'stage':
-            t = model.method(q, '__call__')
-            if t is None:
-                continue
-            sm = E.summary(t, q)
-            init = model.method(q, '__init__')
-            if init is not None:
-                sm.merge(E.summary(init, q))
-            summaries[name] = sm
-        else:
-            summaries[name] = E.summary(model.funcs[q], None)
-    r_on = runs['every option on']
-    seq = [t[1] for t in r_on.trace if t[0] in ('stage', 'call')]
-    first = {}
-    for i_, n_ in enumerate(seq):
-        first.setdefault(n_, i_)
-    producers = {}
-    for n_ in seq:
-        sm = summaries.get(n_)
-        if sm is None:
-            continue
-        for a in ANNOTATIONS:
-            if a in sm.ann_add and a not in producers:
-                producers[a] = n_
-    rep.count('annotation_producers', dict(producers))
-    n = 0
-    for n_ in dict.fromkeys(seq):
-        sm = summaries.get(n_)
-        if sm is None:
-            continue
-        for a in sorted(ANNOTATIONS):
-            if a in sm.ann_r and a in producers and producers[a] != n_ and a not in sm.ann_add:
-                n += 1
-                prod = producers[a]
-                rep.check(first[prod] < first[n_], 'C01.ANNOT', mi.loc(), '%s reads .%s (populated by %s)' % (n_, a, prod), 'producer runs first',
-                          'stage %s reads the tree annotation .%s before %s has populated it: whatever it tests there is always empty (dead guard)' % (n_, a, prod), key='C01.ANNOT|%s|%s' % (n_, a))
-    rep.floor('C01.ANNOT', 10)
+    # ---------------- ANNOT typestate, observed: the real minify() with every option on, every stage wrapped (it records its start and then runs the
+    # repository's own code); every read / hasattr probe / write of an attribute hung on a tree node that is not a field of the grammar is recorded
+    # with the stage it happens in. No stage may consult an annotation before the stage that first populates it has started.
+    from ..minrun import option_names, staged_trace
+    from .transform_e2e import work_for_everyone
+    probe = work_for_everyone() + 'def uses_names(first_argument, second_argument=1):\n    local_value = first_argument + second_argument\n    return [local_value for _ in (1, 2)], "a repeated literal", "a repeated literal", "a repeated literal"\n'
+    order, events = staged_trace(model, probe, {o: True for o in option_names(model)})
+    rep.count('stages_in_order', list(dict.fromkeys(order)))
+    # an annotation is populated by its first write - or, for a container that is created empty, by the first element put into it
+    is_container = {attr for (_st, kind, _c, attr) in events if kind == 'populate'}
+    first_write = {}
+    for i_, (st, kind, cls, attr) in enumerate(events):
+        if (kind == 'populate') if attr in is_container else (kind == 'write'):
+            first_write.setdefault(attr, (i_, st))
+    creators = {}
+    for (st, kind, cls, attr) in events:
+        if kind == 'write':
+            creators.setdefault(attr, st)
+    rep.count('annotation_producers', {a: st for a, (_i, st) in sorted(first_write.items())})
+    early = {}
+    for i_, (st, kind, cls, attr) in enumerate(events):
+        if kind in ('read', 'probe') and attr in first_write and i_ < first_write[attr][0] and st != first_write[attr][1] and st != creators.get(attr):
+            early.setdefault((st, attr), (kind, cls))
+    for attr, (_i, producer) in sorted(first_write.items()):
+        readers = sorted({st for (st, kind, cls, a) in events if a == attr and kind in ('read', 'probe') and st != producer})
+        bad = sorted(st for (st, a) in early if a == attr)
+        rep.check(not bad, 'C01.ANNOT', mi.loc(), 'annotation .%s: populated by %s, consulted by %s' % (attr, producer, ', '.join(readers) or 'nobody else'), 'no stage consults it before the producer has run',
+                  'stage %s consults the tree annotation .%s (%s on a %s node) before %s has populated it: whatever it tests there is always missing (dead guard)' %
+                  (bad[0] if bad else '', attr, early.get((bad[0], attr), ('', ''))[0] if bad else '', early.get((bad[0], attr), ('', ''))[1] if bad else '', producer), key='C01.ANNOT|' + attr)
+    rep.floor('C01.ANNOT', 6)
 
     # ---------------- SELF: unparse() evaluated with the printer, the parser and the comparison answered by the checker
     from ..absint import Obj as _Obj, _Raise
